@@ -2,6 +2,7 @@
 import concurrent.futures as cf
 import importlib
 import json
+import os
 
 from . import tlc
 
@@ -35,6 +36,13 @@ def guarded(fn, case, secs=None):
         out = fn(case)
     except CaseTimeout:
         out = None
+    except Exception as ex:  # noqa: BLE001 - the implementation raised where the executor does not expect it (object construction): a result, not a harness error
+        import traceback
+        tb = traceback.extract_tb(ex.__traceback__)
+        where = next((f"{os.path.basename(fr.filename)}:{fr.lineno}" for fr in reversed(tb) if "/fibertree/" in fr.filename), "")
+        out = {"tid": case["tid"], "crash": f"err:{type(ex).__name__}:{str(ex)[:80]}", "in_library": 1 if where else 0, "at": where}
+        if not where:
+            raise
     finally:
         signal.setitimer(signal.ITIMER_REAL, 0)
         signal.signal(signal.SIGALRM, old)
@@ -55,7 +63,10 @@ def split_timeouts(prop, cases, logs, op_of=None):
     viol = []
     kc, kl = [], []
     for c, lg in zip(cases, logs):
-        if isinstance(lg, dict) and lg.get("timeout"):
+        if isinstance(lg, dict) and lg.get("crash"):
+            viol.append({"clause": f"P:{prop}:no-exception", "op": (op_of(c) if op_of else "call"), "where": "setup:" + lg.get("at", ""), "step": 0, "detail": {"exc": lg["crash"]},
+                         "behaviour": {k: w for k, w in c.items() if k != "tid"}})
+        elif isinstance(lg, dict) and lg.get("timeout"):
             if lg.get("skipped"):
                 continue
             viol.append({"clause": f"P:{prop}:terminates", "op": (op_of(c) if op_of else "call"), "where": "timeout", "step": 1, "detail": {"exc": "timeout"},
@@ -125,6 +136,9 @@ def replay_family(ctx, prop, rec, exec_mod, validator, cfg, exec_fn="execute"):
     case["tid"] = 1
     mod = importlib.import_module(exec_mod)
     lg = guarded(getattr(mod, exec_fn), case)
+    if lg.get("crash"):
+        print(("VIOLATION property=%s replay=(replayed: " % (prop)) + lg["crash"] + ")")
+        return 1
     if lg.get("timeout"):
         print(f"VIOLATION property={prop} replay=(replayed: the call does not terminate)")
         return 1
